@@ -15,7 +15,7 @@ theorem purgeNames_agree (names : List String) (cs : List (Candle F)) :
   unfold purgeNames
   refine AgreeOff.map _ (fun c => ?_) cs
   exact ⟨rfl, rfl, rfl, rfl, rfl, rfl, rfl, rfl,
-    fun k hk => by simp [dlookup_eraseAll, hk], fun k hk => by simp [dlookup_eraseAll, hk]⟩
+    fun k hk => by simp [Writes.dlookup_eraseAll, hk], fun k hk => by simp [Writes.dlookup_eraseAll, hk]⟩
 
 /-- … and removes every entry stored under `names`, on every candle, in both dicts. -/
 theorem purgeNames_removes (names : List String) (cs : List (Candle F)) (c : Candle F)
@@ -23,7 +23,7 @@ theorem purgeNames_removes (names : List String) (cs : List (Candle F)) (c : Can
     dlookup k c.inds = none ∧ dlookup k c.subs = none := by
   unfold purgeNames at hc
   obtain ⟨c0, _, rfl⟩ := List.mem_map.1 hc
-  simp [dlookup_eraseAll, hk]
+  simp [Writes.dlookup_eraseAll, hk]
 
 /-- `purge` is invisible once the purged names are dropped (strong form of `purgeNames_agree`) -/
 theorem purgeNames_stripEq (names : List String) (cs : List (Candle F)) :
@@ -74,9 +74,9 @@ theorem IndState.Local.agree {s s' : IndState F} (h : IndState.Local s s') :
 theorem IndState.calculate_local (s s' : IndState F) (h : s.calculate = .ok s') : IndState.Local s s' := by
   unfold IndState.calculate at h
   dsimp only at h
-  obtain ⟨cs1, h1, h⟩ := bind_ok h
-  obtain ⟨cs2, h2, h⟩ := bind_ok h
-  obtain ⟨cs3, h3, h⟩ := bind_ok h
+  obtain ⟨cs1, h1, h⟩ := Writes.bind_ok h
+  obtain ⟨cs2, h2, h⟩ := Writes.bind_ok h
+  obtain ⟨cs3, h3, h⟩ := Writes.bind_ok h
   cases h
   exact ⟨rfl, rfl, ((calcSubs_stripEq _ _ _ _ _ _ h1).ofSubs.trans
     (calcLoop_stripEq _ _ _ _ _ _ h2)).trans (calcSubs_stripEq _ _ _ _ _ _ h3).ofSubs⟩
@@ -85,7 +85,7 @@ theorem IndState.calculateIndex_local (s s' : IndState F) (start : Int) (end_ : 
     (h : s.calculateIndex start end_ = .ok s') : IndState.Local s s' := by
   unfold IndState.calculateIndex at h
   dsimp only at h
-  obtain ⟨cs1, h1, h⟩ := bind_ok h
+  obtain ⟨cs1, h1, h⟩ := Writes.bind_ok h
   cases h
   exact ⟨rfl, rfl, calculateIndex_stripEq _ _ _ _ _ _ h1⟩
 
